@@ -213,6 +213,12 @@ def run_harnesses(wc, harnesses, outdir, jobs=8, extra_env=None, solver_cli=None
     return results
 
 
+# extra cargo-kani arguments per group.  "safe_rust": the harness only exercises safe Rust, whose
+# pointer validity CBMC need not re-check (bounds checks, unwraps, overflow panics are explicit in MIR
+# and stay checked) -- this shrinks the formula of the iterator-heavy import harnesses several times.
+GROUP_ARGS = {"safe_rust": ["--no-memory-safety-checks"]}
+
+
 def run_grouped(wc, harnesses, outdir, jobs=8):
     """Harnesses whose stubs conflict with another harness' contract live in different `group`s;
     each group is one cargo-kani invocation with its own target dir; groups run concurrently."""
@@ -223,7 +229,7 @@ def run_grouped(wc, harnesses, outdir, jobs=8):
     results = {}
     per = max(1, jobs // max(1, len(groups)))
     with ThreadPoolExecutor(max_workers=len(groups)) as ex:
-        futs = {g: ex.submit(run_harnesses, wc, hs, outdir, per, None, None, None, g) for g, hs in groups.items()}
+        futs = {g: ex.submit(run_harnesses, wc, hs, outdir, per, None, None, GROUP_ARGS.get(g), g) for g, hs in groups.items()}
         for g, f in futs.items():
             results.update(f.result())
     return results
